@@ -1,0 +1,22 @@
+//go:build verif
+// +build verif
+
+package group_create
+
+import (
+	"com.tuntun.rangers/node/src/consensus/access"
+	"com.tuntun.rangers/node/src/middleware/log"
+)
+
+// VerifC15SetJoinedGroupStorage injects the storage GetMemberSignPubKey reads
+// from (the node sets it in groupCreateProcessor.Init, which needs the chains).
+// The miner info stays zero, so askSignPK builds no request (invalid secret key).
+func VerifC15SetJoinedGroupStorage(s *access.JoinedGroupStorage, l log.Logger) {
+	if groupCreateLogger == nil {
+		groupCreateLogger = l
+	}
+	if groupCreateDebugLogger == nil {
+		groupCreateDebugLogger = l
+	}
+	GroupCreateProcessor.joinedGroupStorage = s
+}
